@@ -1,9 +1,79 @@
-(* Encoding of a run of the timer model into Lib/Obs.T for the correspondence check (C09). *)
+(* Correspondence between a run of the real loop and the timer model (C09), evaluated inside Coq.
+
+   [k_agree] gets the program, the recorded schedules and what the implementation was observed to do (its history
+   as [lrec]s, and per timer whether it is alive and its expiry at the end) and answers [Tn 1] when
+   (a) exactly what C09 constrains: the implementation's history is accepted by the specification monitor
+       (firing times, nobody fires twice, due timers fire, wait bounds, datetime deadlines) and the monitor's
+       book-keeping agrees with the fields of the real timers at the end (alive, expiry);
+   (b) tolerantly, the rest of the loop skeleton: the implementation's history, without the iterations in which
+       nothing fired and nobody waited, extends what the model has done after n/2 ticks and is extended by what the
+       model has done after 2n ticks (the implementation ran n ticks).  How many ticks a removal or a hand-over
+       takes is therefore not compared, only bounded; the TIMEOUT constant is read from the implementation.
+   Any other answer is a diagnostic. *)
 From Coq Require Import List ZArith Bool.
 From Circ Require Import Lib.Obs Model.Timers.
 Import ListNotations.
 Open Scope Z_scope.
 
+(* a TIMEOUT that happens to lie on the grid is the same budget as that grid value *)
+Definition tl_eqb (num den : Z) (a b : tlv) : bool :=
+  match a, b with
+  | Inf, Inf => true | Fin x, Fin y => x =? y | Tmo, Tmo => true
+  | Fin x, Tmo => x * den =? num | Tmo, Fin x => x * den =? num
+  | _, _ => false
+  end.
+Definition opt_eqb {A} (f : A -> A -> bool) (a b : option A) : bool :=
+  match a, b with None, None => true | Some x, Some y => f x y | _, _ => false end.
+Fixpoint nats_eqb (l m : list nat) : bool :=
+  match l, m with [], [] => true | x :: l', y :: m' => Nat.eqb x y && nats_eqb l' m' | _, _ => false end.
+
+Definition lrec_eqb (num den : Z) (a b : lrec) : bool :=
+  match a, b with
+  | LCreate t iv p dl, LCreate t' iv' p' dl' => (t =? t') && (iv =? iv') && Bool.eqb p p' && opt_eqb Z.eqb dl dl'
+  | LReset i t niv, LReset i' t' niv' => Nat.eqb i i' && (t =? t') && opt_eqb Z.eqb niv niv'
+  | LUnreq i t, LUnreq i' t' => Nat.eqb i i' && (t =? t')
+  | LIter t f w, LIter t' f' w' => (t =? t') && nats_eqb f f' && opt_eqb (tl_eqb num den) w w'
+  | LDisp i t, LDisp i' t' => Nat.eqb i i' && (t =? t')
+  | LRereg i t, LRereg i' t' => Nat.eqb i i' && (t =? t')
+  | _, _ => false
+  end.
+
+Definition is_noop (r : lrec) : bool := match r with LIter _ [] None => true | _ => false end.
+Definition proj (h : list lrec) : list lrec := filter (fun r => negb (is_noop r)) h.
+
+(* length of the common prefix, and whether the first list is exhausted by it *)
+Fixpoint common (num den : Z) (a b : list lrec) (k : nat) : nat * bool :=
+  match a, b with
+  | [], _ => (k, true)
+  | _ :: _, [] => (k, false)
+  | x :: a', y :: b' => if lrec_eqb num den x y then common num den a' b' (S k) else (k, false)
+  end.
+
+Fixpoint finals_ok (ms : list stimer) (fin : list (bool * Z)) : bool :=
+  match ms, fin with
+  | [], [] => true
+  | x :: ms', (al, ex) :: fin' => Bool.eqb (s_alive x) al && (s_t0 x + s_iv x =? ex) && finals_ok ms' fin'
+  | _, _ => false
+  end.
+
+Definition k_agree (p : prog) (t0 : Z) (sts : list (Z * bool * nat)) (sch tsch : list nat) (n : nat)
+                   (hi : list lrec) (fin : list (bool * Z)) : T :=
+  match mon_run (p_tmo_num p) (p_tmo_den p) [] hi with
+  | None => Tl [Tn 2]                                  (* the implementation's history violates the specification *)
+  | Some ms =>
+      if negb (finals_ok ms fin) then Tl [Tn 3]        (* the timers' fields disagree with their history *)
+      else
+        let lo := proj (history (fst (run p (init t0 sts sch tsch) (Nat.div2 n)))) in
+        let hi' := proj (history (fst (run p (init t0 sts sch tsch) (n + n)))) in
+        let pi := proj hi in
+        let '(k1, ok1) := common (p_tmo_num p) (p_tmo_den p) lo pi 0 in
+        if negb ok1 then Tl [Tn 4; Tnat k1]            (* diverges from / lags behind the model (index of the record) *)
+        else let '(k2, ok2) := common (p_tmo_num p) (p_tmo_den p) pi hi' 0 in
+             if negb ok2 then Tl [Tn 5; Tnat k2]       (* diverges from / runs ahead of the model *)
+             else Tn 1
+  end.
+
+(* the plain observable of a model run (used for diagnostics) *)
 Definition obs_tl (w : option tlv) : T :=
   match w with
   | None => Tl []
@@ -17,12 +87,11 @@ Definition obs_rec (r : lrec) : T :=
   | LCreate t iv p dl => Tl [Tn 1; Tn t; Tn iv; Tbool p; Tn (match dl with Some d => d | None => -1 end)]
   | LReset i t niv => Tl [Tn 2; Tnat i; Tn t; Topt Tn niv]
   | LUnreq i t => Tl [Tn 3; Tnat i; Tn t]
-  | LIter t _ w => Tl [Tn 4; Tn t; obs_tl w]
+  | LIter t f w => Tl [Tn 4; Tn t; Tlist Tnat f; obs_tl w]
   | LDisp i t => Tl [Tn 5; Tnat i; Tn t]
+  | LRereg i t => Tl [Tn 6; Tnat i; Tn t]
   end.
 
-Definition obs_timer (tm : timer) : T := Tl [Tbool (t_reg tm); Tbool (t_pend tm); Tn (t_exp tm)].
-
-Definition obs_run (p : prog) (t0 : Z) (sts : list (Z * bool * nat)) (sch : list nat) (n : nat) : T :=
-  let '(s, m) := run p (init t0 sts sch) n in
-  Tl [Tlist obs_rec (history s); Tlist obs_timer (timers s); Tn (now s); Tnat m; Tbool (halted s)].
+Definition obs_run (p : prog) (t0 : Z) (sts : list (Z * bool * nat)) (sch tsch : list nat) (n : nat) : T :=
+  let '(s, m) := run p (init t0 sts sch tsch) n in
+  Tl [Tlist obs_rec (proj (history s)); Tn (now s); Tnat m; Tbool (halted s)].
